@@ -15,7 +15,7 @@ import warnings
 import numpy as np
 import scipy.sparse as sps
 
-from ..common import q, call_impl
+from ..common import q, call_impl, vary_layout, frozen
 
 # derivative form of the adjoint theorems (Props/C07Deriv.lean: the implicit-function step, the coded sensitivities are the
 # derivative of the response along every differentiable curve of inputs); audited with every check of C07
@@ -311,7 +311,8 @@ def _matrix_for(rng, spec, classes, sparse_only=False):
 
 
 def wrap(A, sparse, fmt):
-    return SPFORMATS[fmt](A) if sparse else A.copy()
+    # dense matrices: C order, Fortran order or a transposed view (same logical matrix)
+    return SPFORMATS[fmt](A) if sparse else vary_layout(A.copy(), (A.shape, float(np.abs(A).sum())))
 
 
 def build(spec):
@@ -493,7 +494,9 @@ def run_impl(c):
             m = pm.LinSolve([sA, sb], **kw)
             if not c.lda:
                 m.use_lda_solver = False
+            snapA = frozen(sA.state)
             m.response()
+            out["input_clobbered"] = (not c.sparse) and frozen(sA.state) != snapA
             out["x"] = np.array(m.sig_out[0].state)
             m.sig_out[0].sensitivity = c.w.copy()
             m.sensitivity()
@@ -569,6 +572,8 @@ def oracle(c, out):
     A = c.A
     if c.stream == "linsolve":
         x = out["x"]
+        if out.get("input_clobbered"):
+            return "LinSolve.response() wrote into the matrix held by its input signal"
         if x.shape != c.b.shape:
             return f"x has shape {x.shape}, rhs has shape {c.b.shape}"
         X2, B2 = x.reshape(x.shape[0], -1), c.b.reshape(c.b.shape[0], -1)
